@@ -382,6 +382,22 @@ func (x *Exec) compareList(op Op, exp Op, o *Observed) []string {
 	if lb.Name != op.S("b") {
 		add("listing names bucket %q", lb.Name)
 	}
+	if exp.Has("echo") && !x.Api {
+		e := exp.Sub("echo")
+		if want := x.Conc.Key(e.Key("prefix")); lb.Prefix != want {
+			add("listing echoes Prefix %q, want %q", lb.Prefix, want)
+		}
+		if want := e.Key("delim"); lb.Delimiter != want {
+			add("listing echoes Delimiter %q, want %q", lb.Delimiter, want)
+		}
+		if op.B("v2") {
+			// KeyCount counts the entries of this page: keys and common prefixes
+			// (gofakes3 omits the element when the count is 0)
+			if want := strconv.Itoa(len(lb.Contents) + len(lb.CommonPrefixes)); lb.KeyCount != want && !(lb.KeyCount == "" && want == "0") {
+				add("KeyCount: got %q, but the page holds %s entries", lb.KeyCount, want)
+			}
+		}
+	}
 	return bad
 }
 
